@@ -124,10 +124,32 @@ def _gate_matrix(name, params, n, modes):
 
 
 def reference(spec):
+    """Independent phase-space simulation. With New/Del pseudo-commands the register changes size: `live` maps
+    positions to external mode indices, and the returned (mu, V) cover the live modes in index order."""
     n = spec["n"]
     mu = np.zeros(2 * n)
     V = np.eye(2 * n)
+    live = list(range(n))
     for name, params, modes, dagger in spec["cmds"]:
+        if name == "New":
+            k_old = len(live)
+            live.append(modes[0])
+            perm_x, perm_p = list(range(k_old)), list(range(k_old, 2 * k_old))
+            mu2 = np.zeros(2 * (k_old + 1))
+            V2 = np.eye(2 * (k_old + 1))
+            ix = perm_x + [k_old + 1 + i for i in range(k_old)]
+            mu2[ix] = mu
+            V2[np.ix_(ix, ix)] = V
+            mu, V, n = mu2, V2, k_old + 1
+            continue
+        if name == "Del":
+            pos = live.index(modes[0])
+            keep = [i for i in range(2 * n) if i not in (pos, pos + n)]
+            mu, V = mu[keep], V[np.ix_(keep, keep)]
+            live.pop(pos)
+            n -= 1
+            continue
+        modes = [live.index(m) for m in modes]
         k = modes[0]
         if name in sfgen.GAUSSIAN_GATES:
             S, d = _gate_matrix(name, params, n, modes)
@@ -205,9 +227,13 @@ def sig_ops(spec):
 def search(ctx):
     rng = ctx.rng
     # 1. gaussian vs bosonic vs reference
-    for _ in range(ctx.budget(150, 1500)):
+    for it in range(ctx.budget(150, 1500)):
         n = rng.randint(1, 4)
-        spec = {"n": n, "cmds": [sfgen.random_cmd(rng, n, GNAMES, dagger_prob=0.2) for _ in range(rng.randint(1, 7))]}
+        if it % 3 == 2:
+            # histories in which modes are created and deleted along the way
+            spec = sfgen.random_history_spec(rng, GNAMES, max_total=4)
+        else:
+            spec = {"n": n, "cmds": [sfgen.random_cmd(rng, n, GNAMES, dagger_prob=0.2) for _ in range(rng.randint(1, 7))]}
         data = {"check": "gbr", "spec": spec}
         try:
             g = bc.gauss_obs(bc.run(spec, "gaussian"))
